@@ -12,7 +12,7 @@ from vf.lib import buf
 
 RULE = ("cases: (a) every composition n = n1+...+nk of every n <= 6 (bounded exhaustive) and sampled compositions (zero-sized increments included) of n = 0..64 BIP-340 signatures "
         "made by schnorrsig_sign32 over edge-biased keys (duplicates included); one-shot aggregate must have 32(n+1) bytes, equal pyref.halfagg.aggregate byte for byte, pass aggverify, "
-        "every incremental schedule must reproduce the one-shot bytes of every prefix, every buffer shorter than 32(n+1) must give 0, larger / ragged buffers 1; "
+        "every incremental schedule must reproduce the one-shot bytes of every prefix, every buffer shorter than 32(n+1) must give 0, larger / ragged buffers 1; (a') for n = 0..4 (0..8 thorough) the length dimension EXHAUSTIVELY: aggverify with every aggsig_len in 0..32(n+2)+33 (honest bytes truncated / followed by 00 or AA filler) accepts only 32(n+1), aggregate and inc_aggregate (every cut) with every buffer length 0..32(n+2): too small => 0, else 1 with the exact length and the one-shot bytes; "
         "(b) aggregate strings for n = 0..20: honest, bit flips, r_i >= p, r_i off curve, r_i of another point, s >= n, s = 0, s -> n - s (negation of the correct scalar), length +-1..31, +-32 (length for n+-1), key list shorter / longer, "
         "keys / messages swapped or altered, one input signature altered before aggregation; oracle: verdict of pyref.halfagg.verify (draft-spec VerifyAggregate); "
         "(c) order-13 / order-199 builds: honest aggregates verify, incremental == one-shot, every re-encoding s + k*order and the negation order - s are rejected (group-agnostic relations only). "
@@ -243,6 +243,73 @@ def sequence_case(draw):
     if n >= 2 and draw(st.integers(0, 5)) == 0:
         case["dup"] = draw(st.sampled_from(["keys", "msgs", "all", "negpair"]))
     return case
+
+
+# ------------------------------------------------------------------ (a') the length dimension, exhaustively for small n
+def run_len_sweep(env, case):
+    """every aggsig_len in 0..32(n+2)+33 for aggverify, every buffer length in 0..32(n+2) for aggregate and for inc_aggregate at every cut"""
+    lib = env.lib
+    n = case["n"]
+    lib.reset()
+    sks, pk32s, msgs, sigs = materialize(env, case)
+    pk_arr = xonly_array(env, pk32s)
+    mcat, scat = b"".join(msgs), b"".join(sigs)
+    need = 32 * (n + 1)
+    ref = prefix_aggregates(pk32s, msgs, sigs)
+    r, one, olen = lib_aggregate(env, pk_arr, mcat, scat, n, need)
+    env.require(r == 1 and olen == need and one == ref[n], "one-shot aggregate wrong (n=%d)" % n, got=one, expect=ref[n])
+    fill = bytes([case["fill"]])
+    pm = list(zip(pk32s, msgs))
+    accepted = []
+    for L in range(0, 32 * (n + 2) + 34):
+        cand = (one + fill * L)[:L]
+        expect = halfagg.verify(cand, pm)
+        got = lib_aggverify(env, pk_arr, mcat, n, cand)
+        env.require(got == (1 if expect else 0), "aggverify verdict %d for aggsig_len=%d (honest aggregate of %d signatures %s), specification says %d"
+                    % (got, L, n, "truncated" if L < need else "followed by %d filler bytes" % (L - need), expect), n=n, aggsig_len=L, fill=case["fill"])
+        if got:
+            accepted.append(L)
+    env.require(accepted == [need], "aggverify accepted lengths %s, only 32(n+1) = %d is valid" % (accepted, need))
+    # one-shot aggregation: every buffer length
+    for L in range(0, 32 * (n + 2) + 1):
+        r, out, olen = lib_aggregate(env, pk_arr, mcat, scat, n, L)
+        if L < need:
+            env.require(r == 0, "aggregate returned %d with a %d-byte buffer, %d bytes are needed" % (r, L, need), n=n)
+        else:
+            env.require(r == 1 and olen == need and out == one, "aggregate with a %d-byte buffer: ret=%d len=%d (expected 1, %d, the one-shot bytes)" % (L, r, olen, need), n=n)
+    # incremental aggregation: every cut, every buffer length (n_before = 0 starts from the documented empty aggregate: 32 zero bytes)
+    for cut in range(0, n + 1):
+        for L in range(0, 32 * (n + 2) + 1):
+            r, out, olen = lib_inc(env, ref[cut], L, pk_arr, mcat, scat[64 * cut:], cut, n - cut)
+            if L < need:
+                env.require(r == 0, "inc_aggregate returned %d with a %d-byte buffer, %d bytes are needed (n_before=%d, n_new=%d)" % (r, L, need, cut, n - cut))
+            else:
+                env.require(r == 1 and olen == need and out == one,
+                            "inc_aggregate with a %d-byte buffer (n_before=%d, n_new=%d): ret=%d len=%d (expected 1, %d, the one-shot bytes)" % (L, cut, n - cut, r, olen, need))
+    env.require(lib.illegal() == 0 and lib.errors() == 0, "callback fired: " + lib.cbmsg())
+    return True, ["len_sweep_complete", "n=%d" % n, "fill=%02x" % case["fill"]]
+
+
+def _sweep_cases(tier):
+    top = 4 if tier == "quick" else 8
+    seeds = 2 if tier == "quick" else 4
+    for sd in range(seeds):
+        for n in range(0, top + 1):
+            for fill in (0x00, 0xAA):
+                yield {"n": n, "seed": hashlib.sha256(b"C17sweep%d" % sd).hexdigest()[:16], "fill": fill}
+
+
+def sweep_enum(tier, shard, nshards):
+    for i, c in enumerate(_sweep_cases(tier)):
+        if i % nshards == shard:
+            yield c
+
+
+def sweep_enum_sixth(tier, shard, nshards):
+    """a sixth of the sweep for the sanitizer build (which n / filler it gets rotates through all of them)"""
+    for i, c in enumerate(_sweep_cases(tier)):
+        if i % 6 == (i // 6) % 6 and (i // 6) % nshards == shard:
+            yield c
 
 
 # ------------------------------------------------------------------ (b) aggregate strings
@@ -492,6 +559,9 @@ SMALL = {"quick": ["small13", "small199"], "thorough": ["small13", "small199"]}
 TESTS = [
     Test("compositions", compose_enum, run_sequence, kind="enum", cfgs=BOTH, max_workers=8,
          must_cover=["n=0", "n=1", "n=6", "incremental>=2", "zero_increment", "small_buf_rejected", "ref_verified"]),
+    Test("len_sweep", sweep_enum, run_len_sweep, kind="enum", cfgs={"quick": ["prod"], "thorough": ["prod"]}, max_workers=4,
+         must_cover=["len_sweep_complete", "n=0", "n=4", "fill=00", "fill=aa"]),
+    Test("len_sweep_vsan", sweep_enum_sixth, run_len_sweep, kind="enum", cfgs=VSANONLY, max_workers=1, must_cover=["len_sweep_complete"]),
     Test("sequences", sequence_case, run_sequence, quick=500, thorough=20000, cfgs=PRODONLY, max_workers=8,
          must_cover=["n=0", "n=64", "n<=63", "incremental>=2", "zero_increment", "ref_verified"]),
     Test("sequences_vsan", sequence_case, run_sequence, quick=60, thorough=1500, cfgs=VSANONLY, must_cover=["incremental>=2"]),
